@@ -13,8 +13,11 @@ namespace vt
    template< typename Root, template< typename... > class Act, template< typename... > class Ctl, apply_mode A, rewind_mode M, tracking_mode T, typename Eol >
    void run_strings( const std::string& sigma, int maxlen, CaseCfg c = CaseCfg() )
    {
+      g().fuel_cases = 0;
       for_all_strings( sigma, maxlen, [ & ]( const std::string& s ) {
-         run_memory_case< Root, Act, Ctl, A, M, T, Eol >( c, s );
+         if( g().fuel_cases < 3 ) {  // a grammar that keeps running out of fuel is not explored further
+            run_memory_case< Root, Act, Ctl, A, M, T, Eol >( c, s );
+         }
       } );
    }
 
